@@ -45,6 +45,9 @@ type entry struct {
 	Cnt  any    `json:"cnt"`
 }
 
+// longText: a stack trace sized event text (5 680 bytes, multi-byte characters included): no length is special to the codec
+var longText = strings.Repeat("at com.example.Handler.invoke(Handler.java:42) — ünïcode ✓\n", 80)
+
 type event struct {
 	Title string `json:"title"`
 	Text  string `json:"text"`
@@ -421,7 +424,7 @@ func TestCases(t *testing.T) {
 				}
 				res.Hit("comp:" + c.Comp.Type)
 			} else {
-				e := &gostatsd.Event{Title: c.Ev.Title, Text: map[string]string{"plain": "text", "newline-utf8": "line1\nlïne2 ✓"}[c.Ev.Text], Source: gostatsd.Source(c.Ev.Src),
+				e := &gostatsd.Event{Title: c.Ev.Title, Text: map[string]string{"plain": "text", "newline-utf8": "line1\nlïne2 ✓", "long": longText}[c.Ev.Text], Source: gostatsd.Source(c.Ev.Src),
 					AggregationKey: c.Ev.Agg, SourceTypeName: c.Ev.SType, Tags: tagsOf(c.Ev.Tags)}
 				if c.Ev.Date == "set" {
 					e.DateHappened = 1234567
